@@ -342,6 +342,34 @@ theorem pstore_grant_is_min (t t' : KState ℚ σ) (h : AUnit t t') (r : ResId) 
   obtain ⟨m, hv, hm⟩ := pstore_smallest_first t r e v hp hg
   exact ⟨m, by rw [hout, hv], hm⟩
 
+/-- **Along every run, every granted get was granted in its turn and received what `_do_get` selects at that moment**:
+if get `e` waits in a reachable state `s` and has been granted in a later state `s'`, the run passed through a state `t`
+in which `e` could be served with `v` (`getItem`: oldest item for Store, a smallest for PriorityStore, first match for
+FilterStore), every queue member in front of `e` belonged to a FilterStore and matched no item, and `e`'s outcome in
+`s'` is `v`. -/
+theorem every_get_grant_was_in_turn (body : σ → Resume → Burst ℚ σ) (fuel : Nat) (s0 s s' : KState ℚ σ)
+    (hW : WF s0) (hr0 : SafeReach body fuel s0 s) (hr : SafeReach body fuel s s') (r : ResId) (e : EvId)
+    (hk : (s.ev e).kind = .get r) (ho : (s.ev e).out = none) (ho' : (s'.ev e).out ≠ none) :
+    ∃ t v pre rest, UnitSeq s t ∧ UnitSeq (grantGetSt t r e v) s' ∧ (t.res r).getQ = pre ++ e :: rest ∧
+      getItem t r e = some v ∧ (∀ a ∈ pre, (t.res r).kind = .fstore ∧ getItem t r a = none) ∧ (t.ev e).out = none ∧
+      (s'.ev e).out = some (.ok v) :=
+  have hWs := (reach_base body fuel s0 s hW hr0).2
+  (reach_units body fuel s s' hWs hr).grant_get_moment hk ho ho'
+
+/-- **Along every run, a granted get of a PriorityStore received a smallest item of the store at the moment of the grant.** -/
+theorem pstore_smallest_first_global (body : σ → Resume → Burst ℚ σ) (fuel : Nat) (s0 s s' : KState ℚ σ)
+    (hW : WF s0) (hr0 : SafeReach body fuel s0 s) (hr : SafeReach body fuel s s') (r : ResId) (e : EvId)
+    (hp : (s.res r).kind = .pstore)
+    (hk : (s.ev e).kind = .get r) (ho : (s.ev e).out = none) (ho' : (s'.ev e).out ≠ none) :
+    ∃ t m, UnitSeq s t ∧ UnitSeq (grantGetSt t r e (.int m)) s' ∧ (s'.ev e).out = some (.ok (.int m)) ∧
+      m ∈ (t.res r).items ∧ ∀ y ∈ (t.res r).items, m ≤ y := by
+  obtain ⟨t, v, pre, rest, ht, ht', _, hg, _, _, hout⟩ :=
+    every_get_grant_was_in_turn body fuel s0 s s' hW hr0 hr r e hk ho ho'
+  have hpt : (t.res r).kind = .pstore := by rw [ht.base.resKind]; exact hp
+  obtain ⟨m, hv, hm⟩ := pstore_smallest_first t r e v hpt hg
+  subst hv
+  exact ⟨t, m, ht, ht', hout, hm⟩
+
 /-! non-vacuity: in the Store run above the put of 9 (event 4) waits in `s1`, and is granted in `s4` -/
 example : (ExStore.s1.ev 4).kind = .put 0 ∧ ExStore.s1.triggered 4 = false ∧ ExStore.s4.triggered 4 = true ∧
     (ExStore.s1.res 0).putQ = [4] := by decide +kernel
